@@ -273,7 +273,7 @@ S_AllocTx(p) ==
 \* the log record the request appends
 LogOf(p, id) ==
     LET r == req[p] IN
-    CASE r.kind = "create"  -> MkLog(id, "tx", p, loc[p].txid, -1, "", "", loc[p].posts, r.ref, r.ik, r.od)
+    CASE r.kind = "create"  -> MkLog(id, "tx", p, loc[p].txid, -1, "", r.mval, loc[p].posts, r.ref, r.ik, r.od)
       [] r.kind = "revert"  -> MkLog(id, "rev", p, loc[p].txid, r.target, "", "", loc[p].posts, "", r.ik, r.od)
       [] r.kind = "setmeta" -> MkLog(id, "set", p, -1, r.target, r.tacct, r.mval, <<>>, "", IF MetaLogsCarryIk THEN r.ik ELSE "", FALSE)
       [] r.kind = "delmeta" -> MkLog(id, "del", p, -1, r.target, r.tacct, "", <<>>, "", IF MetaLogsCarryIk THEN r.ik ELSE "", FALSE)
@@ -339,7 +339,7 @@ EventOf(p) ==
          by |-> p, ik |-> req[p].ik,
          txid |-> IF swapped THEN l.target ELSE l.txid,
          target |-> IF swapped THEN l.txid ELSE l.target,
-         tacct |-> l.tacct, postings |-> l.postings]
+         tacct |-> l.tacct, postings |-> l.postings, mval |-> l.mval]
 
 \* the public method publishes and returns
 S_Publish(p) ==
@@ -469,6 +469,9 @@ C14_DryRun          == DryLeavesNoEntry(store, DryProcs) /\ DryPublishesNothing(
 C14_NoIdConsumed    == TxIdsSequential(store)
 C16_EventsFaithful  == EventsFaithful(events, store)
 C16_AllPublished    == (Quiet /\ crashes = 0) => AllPublished(events, store, resp)
+
+\* nothing is left behind once every request has been answered
+QuiescentClean == Quiet => (refs = {} /\ wl = {} /\ lq = <<>> /\ \A a \in LockAccts : rl[a] = 0 /\ seqOwner = "none")
 
 \* lock manager sanity inside the engine (C15 is decided by Lock.tla)
 LocksConsistent ==
